@@ -23,7 +23,9 @@ OrbitConts == UNION {{<<s, Translate(s, V3), Translate(Translate(s, V3), V3)>>, 
 Init == c \in {<<s>> : s \in Singles} \cup Conts \cup OrbitConts /\ out = [op |-> "init"]
 
 Dim == LET s == c[1] IN CDim(s) - (IF s.rat THEN 1 ELSE 0)
-Vecs == {[k \in 1..Dim |-> RI(k - 2)], [k \in 1..Dim |-> R(2 * k - 1, 2)], [k \in 1..Dim |-> Zero]}
+\* (the last one is a very small displacement, 2^-25 per coordinate: it must not be ignored)
+TinyVec == [k \in 1..Dim |-> R(1, 33554432)]
+Vecs == {[k \in 1..Dim |-> RI(k - 2)], [k \in 1..Dim |-> R(2 * k - 1, 2)], [k \in 1..Dim |-> Zero], TinyVec}
 \* (2^-24: a model in a very small unit; the comparison is made relative to the scale)
 Tiny == R(1, 16777216)
 Factors == {R(-3, 2), Half, RI(2), Tiny}
@@ -51,7 +53,7 @@ MapOf(p) == IF out.op = "translate" THEN VAdd(p, out.vec)
             ELSE IF out.op = "scale" THEN VScale(out.f, p)
             ELSE VAdd(Rot(VSub(p, out.origin), out.axis, out.cos, out.sin), out.origin)
 \* (the tiny factor is left to the linearity shown by the other factors: its evaluated points leave TLC's integers)
-T_ActsOnPoints == out.op # "init" /\ ~(out.op = "scale" /\ out.f = Tiny) =>
+T_ActsOnPoints == out.op # "init" /\ ~(out.op = "scale" /\ out.f = Tiny) /\ ~(out.op = "translate" /\ out.vec = TinyVec) =>
   \A i \in 1..Len(c) :
      /\ \A prm \in ShapeParams(c[i], 1) : Point(out.res[i], prm) = MapOf(Point(c[i], prm))
      /\ Weights(out.res[i]) = Weights(c[i])
